@@ -4,8 +4,11 @@ go 1.13
 
 require (
 	github.com/Factom-Asset-Tokens/factom v0.0.0-20191114224337-71de98ff5b3e
+	github.com/mattn/go-sqlite3 v1.11.0
 	github.com/pegnet/pegnet v0.5.1-0.20210225213341-a476b4b2cc0f
 	github.com/pegnet/pegnetd v0.0.0
+	github.com/sirupsen/logrus v1.4.2
+	github.com/spf13/viper v1.4.0
 )
 
 replace github.com/pegnet/pegnetd => /repo
